@@ -390,17 +390,19 @@ class H5Writer:
 
                 value = as_str_if_uuid(value)
 
-                if (
-                    key
-                    in [
-                        "PropertyGroups",
-                        "Attributes",
-                        "Attributes Jsons",
-                        "Property Groups IDs",
-                        "Concatenated object IDs",
-                    ]
-                    or value is None
-                ):  # or key in Concatenator._attribute_map:
+                if key in [
+                    "PropertyGroups",
+                    "Attributes",
+                    "Attributes Jsons",
+                    "Property Groups IDs",
+                    "Concatenated object IDs",
+                ]:  # or key in Concatenator._attribute_map:
+                    continue
+
+                if value is None:
+                    # an attribute that was cleared must not keep its stored value
+                    if key in entity_handle.attrs:
+                        del entity_handle.attrs[key]
                     continue
 
                 if key in ["Association", "Primitive type"]:
